@@ -189,8 +189,12 @@ class _NormalForm(ast.NodeTransformer):
     def visit_If(self, n):
         # `if a: if b: X` (no else on either, nothing else in the outer body)  ->  `if a and b: X`
         self.generic_visit(n)
+        def is_log(t):
+            return isinstance(t, ast.Name) and t.id == 'LOG'
         while not n.orelse and len(n.body) == 1 and isinstance(n.body[0], ast.If) and not n.body[0].orelse:
             inner = n.body[0]
+            if is_log(n.test) or is_log(inner.test):
+                break       # `if LOG:` blocks stay as they are: the effect rules look at them as units
             vals = []
             for t in (n.test, inner.test):
                 vals.extend(t.values if isinstance(t, ast.BoolOp) and isinstance(t.op, ast.And) else [t])
